@@ -153,6 +153,9 @@ func (cl Serializer) EncodeDnsRequestWithParams(req Request, qt dnsmessage.Type,
 
 // DecodeDnsRequest will take a DNS message and decode it into one of the DNS requests objects
 func (cl Serializer) DecodeDnsRequest(request []byte) (Request, error) {
+	if len(request) == 0 {
+		return nil, errors.Errorf("Invalid request: no data")
+	}
 	for _, c := range Commands {
 		if c.IsOfType(request) {
 			req := c.NewRequest()
